@@ -57,6 +57,17 @@ theorem rpc_writes_serialized : rpcCodecsUnserialized = [] := by decide
     (two readers may hold it at once: such an assignment is a data race, and an append made there loses elements) -/
 theorem client_no_write_under_read_lock : clientWritesUnderReadLock = [] := by decide
 theorem server_no_write_under_read_lock : serverWritesUnderReadLock = [] := by decide
+/-- the places where an unlock is deferred inside a loop body (the mutex then stays locked until the function
+    returns, whatever the function does or waits for afterwards) are the two that mean it: the restart of the
+    monitors in `connect` and the clean-up in `handleDisconnectNotification` (the non-reconnecting branch), which
+    hold the mutexes of every database until they are done and return without waiting for anybody. A goroutine
+    that loops for as long as the connection lives must not keep a mutex this way (mutant 16/C18) -/
+def deferredUnlockInLoopAllowed : List (String × String) :=
+  [("ovsdbClient.connect", "monitorsMutex"), ("ovsdbClient.handleDisconnectNotification", "monitorsMutex"),
+   ("ovsdbClient.handleDisconnectNotification", "cacheMutex"), ("ovsdbClient.handleDisconnectNotification", "modelMutex")]
+theorem client_deferred_unlocks_in_loops_are_the_known_ones :
+    clientDeferredUnlockInLoop.all (fun p => deferredUnlockInLoopAllowed.contains p) = true := by decide
+theorem server_no_deferred_unlock_in_loop : serverDeferredUnlockInLoop = [] := by decide
 /-- every use of the server's monitor table is made under monitorMutex -/
 theorem server_guarded_fields_under_mutex : serverUnguarded = [] := by decide
 
